@@ -285,6 +285,10 @@ package testdirectory
 //@   tags C15
 //@ pure muQuiet(d *Directory) bool = forallref(W, *bufio.Writer, G_guard[W] == &d.mu ==> (G_npend[W] == 0 && G_pendstr[W] == "") || G_werr[W])
 // the search handlers: lock obligations only (their functional behaviour is not under contract)
+// (A functional contract for the search handlers - "success iff some entry matches" - was attempted and
+// abandoned: it needs the closedness of the entry heap (every pointer stored in it points to an object that
+// already exists), which the memory model does not assert; without it the frame of AddAttribute cannot be
+// carried to the directory's own entries. The handlers are under contract for their lock obligations only.)
 //@ func (*testdirectory.Directory).handleSearchUsers$1
 //@   requires hOK(w, r) && dirOK(d) && !held(&d.mu) && w.writerMu != &d.mu
 //@   panics any
